@@ -1,5 +1,229 @@
-(** C05 placeholder (work in progress) *)
-From Coq Require Import List NArith.
-From Ont Require Import Model.Fee.
-Theorem c05_placeholder : True. Proof. exact I. Qed.
-Print Assumptions c05_placeholder.
+(** C05 — A failed transaction changes nothing except the fee it is charged.
+
+    Model: Model/Fee.v — HandleInvokeTransaction / costInvalidGas / chargeCostGas /
+    tuneGasFeeByHeight / calcGasByCodeLen and the ONG transfer they make, over the layered storage
+    model of C04 (Model/KV.v: transaction CacheDB over block OverlayDB over the store) and the
+    stored form of native balances of C21 (Model/NeoInt.v). Every uint64 expression and comparison
+    is Gen/FeeFormulas.v, regenerated from tx_handler.go on every run with the wrap explicit.
+    executeBlock's loop is [run_block] / [block_trace] (Reset before every transaction).
+    Tied to the code on every run by Corr/C05.v: real blocks, every execution record and the
+    block's write set reproduced byte for byte.
+
+    Reading of the statement. The block-level view of the state is [abs_block] (the C04
+    abstraction of overlay over store: what GetWriteSet + the store hold; what the next transaction
+    and, after the block commit, everybody reads). [only_fee payer before r] (Model/FeeSpec.v):
+    the store is untouched; the block view changed by [fee_moved payer (r_gas r)]: not at all when
+    the reported gas is 0, otherwise the payer had at least that much ([v <= fb]: the fee never
+    exceeds the balance) and exactly the payer's and the governance contract's ONG records were
+    rewritten with [fb - v] and [tb + v]; the amount in the only recorded event ([r_fee_events])
+    and the reported GasConsumed ([r_gas]) are that same number.
+
+    PARTIAL (as in DESIGN §5 C05): the interpreter is the parameter [ip]; it is ANY function from
+    (state, gas) to (transaction-cache content, ok?, internal?, gas left, events), i.e. the theorems
+    hold for every script and every native call, but they assume that an execution writes storage
+    only through the transaction's CacheDB. That assumption is checked by observation on every run
+    (write sets of real blocks, oracle class leak:failed-tx-write-survived), not proved. *)
+From Coq Require Import List Bool NArith ZArith.
+Import ListNotations.
+From Ont Require Import Lib.Bytes Lib.U64 Model.KV Model.NeoInt Proofs.KV Proofs.NeoInt
+  Gen.FeeConsts Gen.FeeFormulas Model.Fee Model.FeeSpec Proofs.Fee.
+Local Open Scope N_scope.
+
+(** (1) failed_tx_only_fee — the property, for every environment (height, tune height, gas table),
+    every transaction (payer, signed or not, any price / limit / code length incl. wrapping ones),
+    every interpreter and every well-formed layered state, whatever the cache held before the Reset.
+    No no-wrap hypothesis is needed: the fee is moved by the ONG contract's own checked transfer,
+    and GasConsumed is written only after that transfer was committed. *)
+Definition c05_statement : Prop :=
+  forall env tx ip s, wf_state s = true ->
+    r_status (handle_invoke env tx ip (cache_reset s)) = StFail ->
+    only_fee (t_payer tx) s (handle_invoke env tx ip (cache_reset s)).
+
+Theorem c05_failed_tx_only_fee : c05_statement.
+Proof. exact failed_tx_only_fee. Qed.
+Print Assumptions c05_failed_tx_only_fee.
+
+(** (2) What [fee_moved] means to a reader of the map: with payer <> governance and balances in
+    the domain of the stored form, afterwards the payer reads exactly [fee] less, governance exactly
+    [fee] more, the fee was within the payer's balance, and every other key reads as before. *)
+Theorem c05_fee_moved_is_a_transfer : forall payer fee l l' fb tb,
+  sortedb l = true -> payer <> FEE_GOV_ADDR ->
+  fee_moved payer fee l l' -> fee <> 0 ->
+  bal_in l payer = Some fb -> bal_in l FEE_GOV_ADDR = Some tb ->
+  balance_in_domain fb -> balance_in_domain (tb + Z.of_N fee * ScaleFactor) ->
+  let v := (Z.of_N fee * ScaleFactor)%Z in
+  (v <= fb)%Z /\
+  bal_in l' payer = Some (fb - v)%Z /\ bal_in l' FEE_GOV_ADDR = Some (tb + v)%Z /\
+  forall k, k <> pkey pfx (ong_key payer) -> k <> pkey pfx gov_key -> kv_lookup k l' = kv_lookup k l.
+Proof. intros payer fee l l' fb tb H. apply fee_moved_balances. apply sortedb_ssorted; exact H. Qed.
+Print Assumptions c05_fee_moved_is_a_transfer.
+
+(** (3) The execution's writes are gone for whoever comes next: the transaction cache of the
+    failed transaction (still dirty in [r_state]) is emptied by the Reset that precedes the next
+    transaction, and what that transaction reads is exactly the block view of (1). *)
+Theorem c05_next_tx_sees_block_view : forall r : result,
+  st_cache (cache_reset (r_state r)) = [] /\
+  abs (cache_reset (r_state r)) = abs_block (r_state r) /\
+  abs_block (cache_reset (r_state r)) = abs_block (r_state r).
+Proof. intro r. destruct (reset_abs (r_state r)) as (A & B & C). auto. Qed.
+Print Assumptions c05_next_tx_sees_block_view.
+
+(** (4) success_commits_once: a successful transaction leaves an empty cache, the store untouched,
+    and a block view that is the old one with the execution's writes applied (once) and — when it
+    is charged — the fee [r_gas] moved on top, within the balance the payer has after execution. *)
+Theorem c05_success_commits_once : forall env tx ip s, wf_state s = true -> interp_sorted ip ->
+  r_status (handle_invoke env tx ip (cache_reset s)) = StSuccess ->
+  exists g o, ip (cache_reset s) g = Some o /\ o_ok o = true /\ o_internal o = false /\
+              success_commits tx s o (handle_invoke env tx ip (cache_reset s)).
+Proof. exact success_commits_once. Qed.
+Print Assumptions c05_success_commits_once.
+
+(** (5) Histories: in every block (any list of transactions and interpreters), from every
+    well-formed state, every transaction starts from an empty cache, every failed one satisfies (1)
+    against the block view its predecessors left, every successful one (4). [run_block] (what the
+    correspondence evaluates) is the fold of [block_trace]. *)
+Theorem c05_block_every_tx : forall env txs s, wf_state s = true ->
+  Forall (fun t => interp_sorted (snd t)) txs ->
+  forall tx sb r, In (tx, sb, r) (block_trace env txs s) ->
+    st_cache sb = [] /\
+    (r_status r = StFail -> only_fee (t_payer tx) sb r) /\
+    (r_status r = StSuccess ->
+       exists ip g o, In (tx, ip) txs /\ ip sb g = Some o /\ o_ok o = true /\ success_commits tx sb o r).
+Proof. exact block_txs_only_fee. Qed.
+Print Assumptions c05_block_every_tx.
+
+Theorem c05_run_block_is_trace : forall env txs s,
+  snd (run_block env txs s) = map snd (block_trace env txs s).
+Proof. exact run_block_trace. Qed.
+Print Assumptions c05_run_block_is_trace.
+
+(** (6) tuneGasFeeByHeight, on the generated formulas: once active the result never exceeds the
+    balance handed in as the cap, and it is that cap or the least multiple of the rounding unit that
+    is >= gas; it panics (integer division by zero) exactly when the unit is 0. *)
+Theorem c05_tune_fee : forall h th gas round cap g, gas < two64 -> round < two64 ->
+  tune_active h th = true -> tune_fee h th gas round cap = TuneVal g ->
+  g <= cap /\ (g = cap \/ (g mod round = 0 /\ gas <= g /\ g < gas + round)).
+Proof.
+  intros h th gas round cap g Hg Hr A E. split; [eapply tune_fee_capped; eauto|].
+  destruct (tune_fee_rounds _ _ _ _ _ _ Hg Hr A E) as [->|(X & Y & Z & _)]; [left; reflexivity|right; auto].
+Qed.
+Print Assumptions c05_tune_fee.
+
+Theorem c05_tune_panic_iff : forall h th gas round cap,
+  tune_fee h th gas round cap = TunePanic <-> (tune_active h th = true /\ round = 0).
+Proof. exact tune_fee_panic_iff. Qed.
+Print Assumptions c05_tune_panic_iff.
+
+(** (7) The wrapping side, part one. The rounding unit GasPrice * MIN_TRANSACTION_GAS (uint64)
+    is 0 exactly for the gas prices that are multiples of 2^59; a panic of the handler that is not
+    the storage writer's is this division by zero; and a charged transaction with such a price
+    whose script runs does panic at every height at which rounding is active. The driver replays
+    this on the implementation (witness gasprice-2^59; known finding panic:gasprice-round-zero). *)
+Theorem c05_round_zero_iff : forall price, price < two64 ->
+  (fee_fail_round price = 0 <-> price mod 576460752303423488 = 0).
+Proof. exact round_zero_iff. Qed.
+Print Assumptions c05_round_zero_iff.
+
+Theorem c05_panic_is_round_zero : forall env tx ip s,
+  r_status (handle_invoke env tx ip s) = StPanic -> r_req (handle_invoke env tx ip s) = None ->
+  is_charge tx = true /\ tune_active (e_height env) (e_tune env) = true /\ fee_fail_round (t_price tx) = 0.
+Proof. exact handle_invoke_panic. Qed.
+Print Assumptions c05_panic_is_round_zero.
+
+Theorem c05_round_zero_panics : forall env tx ip s avail clg old o,
+  tune_active (e_height env) (e_tune env) = true -> fee_fail_round (t_price tx) = 0 ->
+  ip s (fee_exec_gas avail clg) = Some o -> o_internal o = false ->
+  (o_ok o = true -> get_balance (mkState (o_cache o) (st_overlay s) (st_store s)) (t_payer tx) <> None) ->
+  r_status (exec_part env tx ip s true avail clg old) = StPanic.
+Proof. exact exec_part_round_zero_panics. Qed.
+Print Assumptions c05_round_zero_panics.
+
+(** (8) The no-wrap side. If MIN_TRANSACTION_GAS*GasPrice, GasLimit*GasPrice and
+    codeLenGas*GasPrice do not wrap (and sc.Gas only decreases), the amount a failing transaction is
+    asked to pay ([r_req]) is at most the balance the handler read — before execution, or after it
+    for the charge made on the transaction's own cache — so the charge cannot fail for lack of
+    funds; and costInvalidGas then collects exactly that amount when the payer signed and the two
+    records are readable and storable. (Without the hypotheses: [c05_wrap_free_failure] below.) *)
+Theorem c05_request_within_balance : forall env tx ip s cg old g,
+  is_charge tx = true -> e_codegas env = Some cg -> no_wrap3 cg tx -> t_limit tx < two64 ->
+  interp_gas_ok ip -> get_balance s (t_payer tx) = Some old ->
+  r_status (handle_invoke env tx ip s) = StFail -> r_req (handle_invoke env tx ip s) = Some g ->
+  g <= old \/
+  (exists gas o new, ip s gas = Some o /\ o_ok o = true /\
+     get_balance (mkState (o_cache o) (st_overlay s) (st_store s)) (t_payer tx) = Some new /\ g <= new).
+Proof. exact req_le_balance. Qed.
+Print Assumptions c05_request_within_balance.
+
+Theorem c05_charge_collects : forall tx s g fb tb, wf_state s = true -> t_signed tx = true -> t_payer tx <> FEE_GOV_ADDR ->
+  let v := (Z.of_N g * ScaleFactor)%Z in
+  bal_in (abs_block s) (t_payer tx) = Some fb -> bal_in (abs_block s) FEE_GOV_ADDR = Some tb ->
+  (v <= fb)%Z -> (v <= FEE_ONG_TOTAL_SUPPLY_V2)%Z -> balance_in_domain fb -> balance_in_domain (tb + v) ->
+  r_status (cost_invalid tx s g) = StFail /\ r_gas (cost_invalid tx s g) = g.
+Proof.
+  intros tx s g fb tb W. apply cost_invalid_pays. apply sorted_block_sorted, wf_state_sorted; exact W.
+Qed.
+Print Assumptions c05_charge_collects.
+
+(** * Concrete states *)
+
+Definition ex_payer : bytes := [1;2;3;4;5;6;7;8;9;10;11;12;13;14;15;16;17;18;19;20].
+Definition rec_of (b : Z) : bytes := match balance_to_bytes b with Some r => r | None => [] end.
+(** payer: 1 ONG, governance: 7.5 ONG; an unrelated contract record *)
+Definition ex_s (payer_bal : Z) : state :=
+  mkState [([5; 9; 9], [1])]                                              (* stale cache content: reset first *)
+          []
+          [(pkey pfx gov_key, rec_of 7500000000000000000%Z);
+           (pkey pfx (ong_key ex_payer), rec_of payer_bal);
+           ([5; 200; 1], [42])].
+(** an execution that writes two keys (one of them the payer's own ONG record), then faults *)
+Definition ex_out : outcome :=
+  mkOut [(pkey pfx (ong_key ex_payer), rec_of 1%Z); ([5; 200; 1], [43]); ([5; 200; 2], [44])] false false 29000 3.
+Definition ex_ip : interp := fun _ _ => Some ex_out.
+Definition ex_env : envp := mkEnv 10 0 (Some FEE_UINT_INVOKE_CODE_LEN_GAS).
+Definition ex_r : result := handle_invoke ex_env (mkTx ex_payer true 2500 30000 10 false) ex_ip (cache_reset (ex_s 1000000000000000000%Z)).
+
+(** Non-vacuity of (1): the hypotheses hold, the transaction fails after writing, the fee is
+    20000 * 2500 = 50000000 (0.05 ONG), it is moved, and none of the three writes survives. *)
+Example c05_nonvacuous :
+  wf_state (ex_s 1000000000000000000%Z) = true /\
+  r_status ex_r = StFail /\ r_gas ex_r = 50000000 /\ r_fee_events ex_r = [50000000] /\
+  bal_in (abs_block (r_state ex_r)) ex_payer = Some 950000000000000000%Z /\
+  bal_in (abs_block (r_state ex_r)) FEE_GOV_ADDR = Some 7550000000000000000%Z /\
+  kv_lookup [5; 200; 1] (abs_block (r_state ex_r)) = [42] /\
+  kv_lookup [5; 200; 2] (abs_block (r_state ex_r)) = [] /\
+  st_store (r_state ex_r) = st_store (ex_s 1000000000000000000%Z) /\
+  st_cache (r_state ex_r) = o_cache ex_out /\ st_cache (cache_reset (r_state ex_r)) = [].
+Proof. vm_compute. repeat split; reflexivity. Qed.
+
+(** The wrapping side, part two: GasPrice = floor(2^64/20000)+1 makes MIN_TRANSACTION_GAS*GasPrice
+    wrap to 8384; the failed transaction is charged 8384 * 10^-9 ONG instead of 20000 * GasPrice
+    (which would be 18.4 * 10^9 ONG). The property still holds (that is what moved and what is
+    reported). Observed on the implementation by the driver's boundary prices. *)
+Definition ex_ip0 : interp := fun _ _ => Some (mkOut (o_cache ex_out) false false 0 0).   (* out of gas at once *)
+Example c05_wrap_min_gas :
+  let r := handle_invoke ex_env (mkTx ex_payer true 922337203685478 30000 10 false) ex_ip0 (cache_reset (ex_s 1000000000000000000%Z)) in
+  fee_min_gas 922337203685478 = 8384 /\ r_status r = StFail /\ r_gas r = 8384 /\
+  bal_in (abs_block (r_state r)) ex_payer = Some 999991616000000000%Z.
+Proof. vm_compute. repeat split; reflexivity. Qed.
+
+(** The wrapping side, part three: codeLenGas*GasPrice wraps (code of 839 KiB, GasPrice 2^40), the
+    balance test passes, GasLimit < codeLenGas asks for GasLimit*GasPrice = 2^60 > balance, the
+    transfer is refused and the failed transaction pays nothing — the conclusion of
+    [c05_request_within_balance] fails without its third hypothesis. (Still no violation of (1):
+    nothing moved, nothing reported.) *)
+Example c05_wrap_free_failure :
+  let tx := mkTx ex_payer true 1099511627776 1048576 859136 false in
+  let r := handle_invoke ex_env tx ex_ip (cache_reset (ex_s 100000000000000000000000000%Z)) in
+  get_balance (cache_reset (ex_s 100000000000000000000000000%Z)) ex_payer = Some 100000000000000000 /\
+  FEE_MIN_TRANSACTION_GAS * t_price tx < two64 /\ t_limit tx * t_price tx < two64 /\
+  two64 <= code_len_gas (t_codelen tx) FEE_UINT_INVOKE_CODE_LEN_GAS * t_price tx /\
+  r_status r = StFail /\ r_req r = Some 1152921504606846976 /\ r_gas r = 0 /\
+  abs_block (r_state r) = abs_block (ex_s 100000000000000000000000000%Z).
+Proof. vm_compute. repeat split; try reflexivity; discriminate. Qed.
+
+(** The division by zero: GasPrice = 2^59. *)
+Example c05_round_zero_example :
+  fee_fail_round 576460752303423488 = 0 /\
+  r_status (handle_invoke ex_env (mkTx ex_payer true 576460752303423488 20000 1 false) ex_ip
+              (cache_reset (ex_s 1000000000000000000%Z))) = StPanic.
+Proof. vm_compute. split; reflexivity. Qed.
